@@ -191,7 +191,9 @@ def step_builder(repo):
 
 def step_rth(repo):
     rth = _strip_comments(_read(repo, "src/rth_plan/rth_plan.c"))
-    return {"rthMaxDuration": extract_define(rth, "MAX_DURATION")}
+    rthh = _strip_comments(_read(repo, "include/skybrush/rth_plan.h"))
+    return {"rthMaxDuration": extract_define(rth, "MAX_DURATION"),
+            "rthActions": extract_enum(rthh, "sb_rth_action_t", "sb_rth_action_t")}
 
 
 def step_yaw(repo):
@@ -253,7 +255,7 @@ GOOD_KEYS = {
     "file-header": ["magic", "versions"],
     "light-player": ["commands", "maxLoopDepth", "numPyroChannels", "maxTriggerCount", "msPerUnit", "msPerUnitWaitUntil", "endedWakeup", "addressBound"],
     "builder": ["builderHeaderLength", "builderMaxDurationMsec", "builderExtend"],
-    "rth": ["rthMaxDuration"],
+    "rth": ["rthMaxDuration", "rthActions"],
     "yaw": ["yawSizeOfDelta"],
     "trajectory": ["angleModulus", "angleDivisor", "msecPerSec"],
 }
@@ -307,6 +309,11 @@ def render(g):
         o.append(f"def {k} : Nat := {g[k]}")
     o.append(f"def endedWakeup : List Nat := {g['endedWakeup']}")
     o.append("")
+    o.append("/-- numbering of `sb_rth_action_t` (include/skybrush/rth_plan.h) -/")
+    o.append("def rthActions : List (String × Nat) := [" + ", ".join(f'("{n}", {v})' for n, v in g["rthActions"]) + "]")
+    for n, v in g["rthActions"]:
+        o.append(f"def {lean_ident(n)} : Nat := {v}")
+    o.append("")
     o.append("end Sb.Gen")
     return "\n".join(o) + "\n"
 
@@ -317,7 +324,7 @@ def lean_str(s):
 
 def _tuples(g):
     """JSON gives lists where the extraction gives tuples: normalise for rendering"""
-    for k in ("errors", "blockTypes", "features", "commands"):
+    for k in ("errors", "blockTypes", "features", "commands", "rthActions"):
         if k in g:
             g[k] = [tuple(x) for x in g[k]]
     return g
